@@ -6,7 +6,8 @@ from ..engine import monitors, suite
 from ..runner import Env, Outcome
 
 THEOREMS = ["C06_delayed_retry_parked", "C06_not_before_delay", "C06_only_timer_releases", "C06_refuted_witness",
-            "C06_refuted", "C06_delay_index_actual"]
+            "C06_refuted", "C06_delay_index_actual", "C06_source_shape", "C06_results_keep_retry_record", "C06_collect_rerun_keeps_retry_number",
+            "C06_stale_collect_reruns_in_place", "C06_failure_after_rerun_counts_on"]
 LEAN_TARGETS = ["WfProps.C06"]
 EXPLANATION = (
     "Proved on the runner LTS: a retry granted with delay d>0 at time t is parked in the timer heap for t+d and only the "
@@ -14,18 +15,32 @@ EXPLANATION = (
     "k-th retry uses index k-1) is REFUTED on the model regenerated from the source (C06_refuted: wait_chain(3,1,2) "
     "first waits 1) and replayed on the real engine: known finding C06/retry_delay_index_off_by_one; what the code does "
     "is proved as C06_delay_index_actual. Any retry starting earlier than the value the code's own index gives is a "
-    "VIOLATION (C06/retry_too_early)."
+    "VIOLATION (C06/retry_too_early). Retries are numbered by the FAILURES of an invocation: a collect re-run (stale "
+    "collect_events snapshot; nothing failed) is not a retry and does not restart the numbering - proved on the reducer "
+    "model (no step result touches the retry record, the re-run keeps it in its slot, the next failure is attempts+1; "
+    "C06_source_shape pins that no result branch of the source re-admits the running invocation) and searched on "
+    "collecting steps with 2-3 workers and incrementing / exponential / chained waits whose retried invocation is re-run "
+    "between two failures: delay after failure k recomputed from the spec's numbers against the virtual-clock "
+    "timestamps (C06/retry_too_early:after_collect_rerun...), and the number handed to next() at the k-th failure is k "
+    "(C06/failure_number_handed_to_policy...)."
 )
 ASSUMPTIONS = suite.ENGINE_ASSUMPTIONS
 
 
 def run(env: Env) -> Outcome:
     out = Outcome()
-    out.rule = ("policy specs (exact) + live retry-heavy scripted workflows with delays under virtual time; non-trivial = more than 2 ticks; "
+    out.rule = ("policy specs (exact) + live retry-heavy scripted workflows with delays under virtual time, incl. collecting multi-worker steps "
+                "re-run between failures; non-trivial = more than 2 ticks; "
                 "distinct by (spec, schedule)")
     policy.correspondence(env, out, env.budget(3000, 60000))
     policy.units_stream(env, out, env.budget(150, 3000))
     suite.direct_corr(env, out, env.budget(1500, 30000))
     suite.live_runs(env, out, env.budget(150, 3000), [monitors.mon_c06], extra_specs=suite.load_corpus("C06"))
     suite.live_runs(env, out, env.budget(300, 6000), [monitors.mon_c06], gen_kwargs={"family": "retry"})
+    # collecting steps (2..3 workers) with non-constant wait strategies whose retried invocation is re-run on a stale
+    # snapshot between two of its failures: retries are numbered by failures, a collect re-run is not one
+    trs = suite.live_runs(env, out, env.budget(120, 2000), [monitors.mon_c06], gen_kwargs={"family": "collect_retry"})
+    for tr in trs:
+        for shape in monitors.c06_rerun_shapes(tr):
+            out.count("live:c06:" + shape)
     return out
